@@ -131,3 +131,9 @@ def run(eng, tier):
         'inventory': {'I2_obligations': nI2, 'matched_refusals': dict(m)},
         'trusted_base': ['interpreter models', 'linear domain'], 'not_decided': [], 'assumptions': ['I2 on loaded approved asks (inductive hypothesis)'],
     }
+
+import probes as _pb
+PROBES = [
+    _pb.drop_facts('execute', 'ApproveAsk', 'ASK.size == msg.size'),
+    _pb.drop_facts('execute', 'ApproveAsk', 'PendingIssuerApproval'),
+]
